@@ -15,5 +15,6 @@ static_assert((int)CPPFunctionType::F_constructor == 0x004 && (int)CPPFunctionTy
 static_assert((int)CPPInstance::SC_inline == 0x010 && (int)CPPInstance::SC_defaulted == 0x4000 && (int)CPPInstance::SC_deleted == 0x8000, "CPPInstance storage classes");
 static_assert((int)InterrogateFunction::F_constructor == 0x0100, "InterrogateFunction::F_constructor");
 static_assert(std::is_same<decltype(InterrogateType::_constructors), std::vector<FunctionIndex> >::value, "_constructors");
+static_assert(std::is_same<decltype(&CPPStructType::is_abstract), bool (CPPStructType::*)() const>::value, "is_abstract");
 static_assert(V_published == 0, "V_published");
 int main() { return 0; }
